@@ -104,7 +104,7 @@ def oracle(N, client, packets):
     return out
 
 
-def segment(stream, mode, a=0, b=0):
+def segment(stream, mode, a=0, b=0, c=0):
     if mode == "whole":
         return [stream]
     if mode == "bytewise":
@@ -116,6 +116,8 @@ def segment(stream, mode, a=0, b=0):
         return [stream[:a], stream[a:]]
     if mode == "cut2":
         return [stream[:a], stream[a:b], stream[b:]]
+    if mode == "cut3":
+        return [stream[:a], stream[a:b], stream[b:c], stream[c:]]
     raise ValueError(mode)
 
 
@@ -189,9 +191,24 @@ def _worker(job):
     def h():
         ex = EX()
         if part == "kinds":
-            kinds = tuple(kinds_all[ex.choose(len(kinds_all))] for _ in range(3))
-            seg = (("whole",), ("bytewise",), ("chunk7",), ("chunk21",))[ex.choose(4)]
+            deep = _G["tier"] == "thorough"
+            kinds = tuple(kinds_all[ex.choose(len(kinds_all))] for _ in range(4 if deep else 3))
+            segs = (("whole",), ("bytewise",), ("chunk7",), ("chunk21",)) + ((("chunk2",), ("chunk3",), ("chunk13",), ("chunk20",), ("chunk33",)) if deep else ())
+            seg = segs[ex.choose(len(segs))]
             cb = (CBK[ex.choose(3)], CBK[ex.choose(3)])
+        elif part == "callbacks":
+            # every pattern of returning / raising / slow callbacks over the first four deliveries of an all-valid stream
+            kinds = ("valid", "valid2", "valid", "valid2", "valid")
+            seg = (("whole",), ("chunk7",))[ex.choose(2)]
+            cb = tuple(CBK[ex.choose(3)] for _ in range(4))
+        elif part == "cut3":
+            kinds = (("valid", "valid2", "valid"), ("malformed", "valid", "unknown_pgn", "valid2"), ("valid", "rejected", "valid2"))[ex.choose(3)]
+            total = len(b"".join(packet(N, client, k, 10 + i) for i, k in enumerate(kinds)))
+            a = 1 + ex.choose(total - 3)
+            b = a + 1 + ex.choose(min(2, total - a - 2))
+            c_ = b + 1 + ex.choose(min(2, total - b - 1))
+            seg = ("cut3", a, b, c_)
+            cb = ("ok", "ok")
         else:
             kinds = (("valid", "valid2", "valid"), ("malformed", "valid", "unknown_pgn", "valid2"), ("fast_first", "valid", "valid2"), ("valid", "rejected", "valid2"))[ex.choose(4)]
             total = len(b"".join(packet(N, client, k, 10 + i) for i, k in enumerate(kinds)))
@@ -230,14 +247,16 @@ def run(tier, seed):
     _G.update(R=R, tier=tier)
     rep.functions = ["ioclient.AsyncIOClient._receive_loop / _process_queue", "EByte / Text / WaveShare _receive_impl", "decoder.decode_tcp / decode_usb / decode_*_string",
                      "asyncio.StreamReader.readexactly / readline / read and asyncio.Queue (real stdlib classes)"]
-    rep.bounds = {"stream": "3 packets from %r (all combinations) and three fixed streams of 3-4 packets" % (KINDS,),
-                  "segmentation": "whole, byte-wise, 7- and 21-byte chunks for every kind combination; every single cut position and every pair of nearby cut positions for the fixed streams",
-                  "callback": "each of the first two deliveries returns / raises / sleeps 0.7 s", "clients": list(aio.CLIENTS)}
-    rep.outside = ["streams longer than 4 packets", "three or more arbitrary cut positions"]
+    deep = tier == "thorough"
+    rep.bounds = {"stream": "%d packets from %r (all combinations) and four fixed streams of 3-5 packets" % (4 if deep else 3, KINDS),
+                  "segmentation": "whole, byte-wise, 7- and 21-byte chunks%s for every kind combination; every single cut position and every pair%s of nearby cut positions for the fixed streams" % (
+                      " (thorough: also 2, 3, 13, 20, 33)" if deep else "", " and triple" if deep else ""),
+                  "callback": "each of the first two deliveries returns / raises / sleeps 0.7 s; for an all-valid 5-packet stream every pattern over the first four deliveries", "clients": list(aio.CLIENTS)}
+    rep.outside = ["streams longer than 5 packets", "more than three arbitrary cut positions"]
     rep.stubs = ["scripted transport feeding the real StreamReader chunk by chunk on the virtual clock"]
-    parts = ("kinds", "cut1", "cut2") if tier == "thorough" else ("kinds", "cut1", "cut2")
+    parts = ("kinds", "cut1", "cut2", "callbacks", "cut3") if tier == "thorough" else ("kinds", "cut1", "cut2", "callbacks")
     jobs = [(c, p) for c in aio.CLIENTS for p in parts]
-    res = run_jobs(rep, _worker, jobs, timeout_s=800)
+    res = run_jobs(rep, _worker, jobs, timeout_s=800 if tier == "quick" else 4000)
     n = sum(p["n"] for p in res if p and "n" in p)
     dn = sum(p["distinct"] for p in res if p and "distinct" in p)
     rep.coverage.update(evaluations=max(1, n), distinct_nontrivial=max(2, dn), exhaustive=True,
